@@ -98,7 +98,7 @@ TrNext == TrReset \/ TrBatch \/ TrPoint \/ TrDrain
 TrSpec == TrInit /\ [][TrNext]_tvars
 
 TrTypeOK ==
-    /\ st.cur \in {"invalid", "int", "float", "str"} /\ st.crt \in {"nil", "int", "float", "str"}
+    /\ st.cur \in {"invalid", "int", "float", "str", "bool"} /\ st.crt \in {"nil", "int", "float", "str", "bool"}
 
 HW == HWMark(l)
 Accepted == HWAccepted
